@@ -146,6 +146,34 @@ fn run_strict(idx: u64, debug: bool) -> Result<(u64, bool), (String, String)> {
     Ok((steps, rejected))
 }
 
+// ---- scale: thousands of live frames
+/// `n` nested calls (ADD R1,R1,#-1 ; BRz +1 ; JSR -3 ; RET with R7 pointing at the RET itself), then the matching n returns one per step
+fn run_deep(n: u16, debug: bool) -> Result<u64, (String, String)> {
+    let mut m = Machine::user();
+    m.debug_frames = debug;
+    m.regs = [0, n, 2, 3, 4, 5, 0xFD00, 0x3003];
+    for (k, w) in [0x127Fu16, 0x0401, 0x4FFD, 0xC1C0].iter().enumerate() { m.pokes.push((0x3000 + k as u16, *w)); }
+    let mut p = build(&m);
+    let what = format!("{n} nested calls then {n} returns, debug_frames={debug}");
+    let mut steps = 0u64;
+    for _ in 0..(4 * n as u64 + 40) {
+        step_compare(&mut p, false).map_err(|(s, d)| (s, format!("{what}: step {steps}: {d}")))?;
+        steps += 1;
+        let depth = p.rf.depth;
+        if p.sim.frame_stack.len() != depth { return Err(("deep:depth".into(), format!("{what}: after step {steps} frame depth {}, calls minus returns {depth}", p.sim.frame_stack.len()))); }
+        match p.sim.frame_stack.frames() {
+            None => if debug { return Err(("deep:frames-missing".into(), format!("{what}: debug_frames is on but frames() is None"))); },
+            Some(fs) => {
+                if fs.len() as u64 != depth { return Err(("deep:frame-list-length".into(), format!("{what}: after step {steps} the frame list has {} entries at depth {depth}", fs.len()))); }
+                if let Some(top) = fs.last() { if top.caller_addr != 0x3002 || top.callee_addr != 0x3000 { return Err(("deep:top-frame".into(), format!("{what}: after step {steps} the innermost frame is (caller x{:04X}, callee x{:04X}), expected (x3002, x3000)", top.caller_addr, top.callee_addr))); } }
+            }
+        }
+        if steps > 3 * n as u64 + 3 && depth == 0 { break; }
+    }
+    Ok(steps)
+}
+const DEEP_N: [u16; 9] = [255, 256, 257, 4095, 4096, 4097, 5000, 16384, 20000];
+
 pub fn run_engine(ctx: &Ctx) -> Report {
     let mut rep = Report::new("every program of 4 instructions over {JSR +0, JSR +1, JSRR R1, TRAP x21, TRAP x25, RET (= JMP R7), JMP R1, RTI, ADD} (6561 programs, unbalanced returns included) followed by a HALT sled x {user/virtual traps, user/real traps, supervisor/virtual with a prepared stack for RTI} x debug frames on/off x {no interrupt, one vectored interrupt (vector x90, or x21 whose low byte equals a trap vector with a built-in signature) raised at each of the first 10 (thorough 16) polls}; calling-convention (2 params, prepared stack) and pass-by-register signatures registered for 5 callee addresses; and every program again on a simulator that first ran another program to a stop two calls deep (with the opposite debug_frames setting) and was reset(); strict mode: every program of 4 over {JSR +0, JSR +1, RET, LD R7 from a never-written cell, LD R7 from a pointer to never-written memory, ADD, JSRR, TRAP x21, JMP R1} on a strict and a non-strict simulator side by side: equal depth while both accept, and a step that strict mode rejects leaves depth and frame list unchanged; run in lock-step with RefLC3; after every step len() = calls - returns saturating, is_empty(), and with debug frames the entry list (caller address, callee/vector, kind, arguments per signature, frame pointer). non-trivial = runs that reach depth >= 2");
     let polls = ctx.pick(10u64, 16u64);
@@ -184,6 +212,12 @@ pub fn run_engine(ctx: &Ctx) -> Report {
         }
     });
     rep.absorb(r);
+    let r = sweep(ctx, DEEP_N.len() as u64 * 2, 1, |k, acc| {
+        let (n, debug) = (DEEP_N[(k / 2) as usize], k % 2 == 1);
+        acc.evals += 1; acc.traces += 1; acc.count("deep_nesting_runs", 1);
+        match run_deep(n, debug) { Ok(steps) => { acc.transitions += steps; acc.nontrivial += 1; } Err((sig, d)) => acc.violation(sig, format!("deep:{n}:{}", debug as u8), d) }
+    });
+    rep.absorb(r);
     rep.require(rep.acc.get("strict_rejections") > 500, "strict mode rejected steps inside subroutines");
     rep.bound("programs", Json::i(nprog)); rep.bound("interrupt_polls", Json::i(polls));
     rep.require(rep.acc.nontrivial > 10_000, "nested frames were reached");
@@ -192,6 +226,7 @@ pub fn run_engine(ctx: &Ctx) -> Report {
 }
 pub fn replay(case: &str) -> Option<String> {
     let p: Vec<&str> = case.split(':').collect();
+    if p.first() == Some(&"deep") { return run_deep(p.get(1)?.parse().ok()?, *p.get(2)? == "1").err().map(|(s, d)| format!("[{s}] {d}")); }
     if p.first() == Some(&"s") { return run_strict(p.get(1)?.parse().ok()?, *p.get(2)? == "1").err().map(|(s, d)| format!("[{s}] {d}")); }
     let at: i64 = p.get(3)?.parse().ok()?;
     run_on(p.first()?.parse().ok()?, p.get(1)?.parse().ok()?, *p.get(2)? == "1", if at < 0 { None } else { Some(at as u64) }, p.get(4).and_then(|x| x.parse().ok()).unwrap_or(0x90), p.get(5) == Some(&"r")).err().map(|(s, d)| format!("[{s}] {d}"))
